@@ -800,4 +800,5 @@ func genC17(cw *caseWriter, seed uint64, tier string) {
 		})
 	}
 	_ = r
+	genMapTo(cw, r, tier)
 }
